@@ -109,8 +109,12 @@ func ParseSelect(statement *sqlparser.Select) (logical.Node, *OutputOptions, err
 		aliases := make([]string, len(statement.SelectExprs))
 	selectExprLoop:
 		for i := range statement.SelectExprs {
-			inExpr := statement.SelectExprs[i].(*sqlparser.AliasedExpr).Expr
-			aliases[i] = statement.SelectExprs[i].(*sqlparser.AliasedExpr).As.String()
+			aliasedExpr, ok := statement.SelectExprs[i].(*sqlparser.AliasedExpr)
+			if !ok {
+				return nil, nil, errors.Errorf("select expression with index %d in grouping must be an expression or aggregate, got %s", i, sqlparser.String(statement.SelectExprs[i]))
+			}
+			inExpr := aliasedExpr.Expr
+			aliases[i] = aliasedExpr.As.String()
 			agg, expr, err := ParseAggregate(inExpr)
 			if err == nil {
 				isAggregate[i] = true
@@ -480,6 +484,9 @@ func ParseAggregate(expr sqlparser.Expr) (string, logical.Expression, error) {
 			return "", nil, errors.Wrapf(ErrNotAggregate, "aggregate not found: %v", expr.Name)
 		}
 
+		if len(expr.Exprs) != 1 {
+			return "", nil, errors.Errorf("aggregate %s takes exactly one argument, got %d", expr.Name.String(), len(expr.Exprs))
+		}
 		var parsedArg logical.Expression
 		switch arg := expr.Exprs[0].(type) {
 		case *sqlparser.AliasedExpr:
